@@ -1498,3 +1498,7 @@ fn get_glv_token_value_via_cpi<'info>(
 
 #[cfg(not(feature = "no-entrypoint"))]
 gmsol_utils::security_txt!("GMX-Solana Liquidity Provider Program");
+
+/// Verification hooks: additive re-exports of crate-private items for the /verif harness.
+#[cfg(feature = "verif-hooks")]
+pub mod verif;
